@@ -31,3 +31,18 @@ package signing
 //@   assert before "sigShare, err := feldman.NewLiftedShare(sender": internalMessage == im
 //@   assert before "sigShare, err := feldman.NewLiftedShare(sender": len(partialPublicKey) == len(psig.SigmaI) && (forall t Int :: 0 <= t && t < len(psig.SigmaI) ==> partialPublicKey[t] == pkComp(publicKeyShares, sender, t))
 //@   assert before "sigShare, err := feldman.NewLiftedShare(sender": forall t Int :: 0 <= t && t < len(psig.SigmaI) ==> compOK(partialSignatureVerifier, publicKeyShares, partialSigs, im, $i, t)
+
+// A partial signature has one component per MSP row of the cosigner: component i is the signature of the (variant
+// specific) message under the i-th share-as-private-key with the target domain separation tag; under proof of
+// possession, component i of the POP vector is the signature of the group public key bytes under THE SAME i-th
+// private key (one signer per row, never a single signer reused for all rows) with the POP tag.
+//@ func (*Cosigner).ProducePartialSignature
+//@   property C01
+//@   ensures err == nil ==> len(result.SigmaI) == len(c.shareAsPrivateKey) && forall i int :: 0 <= i && i < len(c.shareAsPrivateKey) ==> result.SigmaI[i] == res(res(c.scheme.Signer(c.shareAsPrivateKey[i], bls.SignWithCustomDST(c.targetDst)), 0).Sign(message), 0)
+//@   ensures err == nil && c.targetRogueKeyAlg == bls.POP ==> len(result.SigmaPopI) == len(c.shareAsPrivateKey) && forall i int :: 0 <= i && i < len(c.shareAsPrivateKey) ==> result.SigmaPopI[i] == res(res(c.scheme.Signer(c.shareAsPrivateKey[i], bls.SignWithCustomDST(c.scheme.CipherSuite().GetPopDst(c.Variant()))), 0).Sign(c.shard.PublicKey().Bytes()), 0)
+//@   ensures err == nil && c.targetRogueKeyAlg == bls.Basic ==> message == old(message)
+//@   ensures err == nil && c.targetRogueKeyAlg == bls.MessageAugmentation ==> message == res(bls.AugmentMessage(old(message), c.shard.PublicKey().Value()), 0)
+//@   loop range(sigmaPopI)
+//@     invariant len(sigmaPopI) == len(c.shareAsPrivateKey) && forall i int :: 0 <= i && i < $i ==> sigmaPopI[i] == res(res(c.scheme.Signer(c.shareAsPrivateKey[i], bls.SignWithCustomDST(popDst)), 0).Sign(popMsg), 0)
+//@   loop range(sigmaI)
+//@     invariant len(sigmaI) == len(c.shareAsPrivateKey) && forall i int :: 0 <= i && i < $i ==> sigmaI[i] == res(res(c.scheme.Signer(c.shareAsPrivateKey[i], bls.SignWithCustomDST(c.targetDst)), 0).Sign(message), 0)
